@@ -195,11 +195,7 @@ def build(rebound, rb, cfg):
     box = cfg.get("box")
     if box:
         sim.configure_box(box["size"], box.get("nx", 1), box.get("ny", 1), box.get("nz", 1))
-    for p in cfg["particles"]:
-        kw = {k: p[k] for k in ("m", "x", "y", "z", "vx", "vy", "vz", "r") if k in p}
-        if "hash" in p:
-            kw["hash"] = p["hash"]
-        sim.add(**kw)
+    # modules first: particles are inserted into the tree when they are added
     sim.integrator = cfg["integrator"]
     if cfg.get("gravity") and cfg["integrator"] not in ("mercurius", "trace"):
         sim.gravity = cfg["gravity"]
@@ -209,6 +205,11 @@ def build(rebound, rb, cfg):
             sim.collision_resolve = cfg["collision_resolve"]
     if cfg.get("boundary", "none") != "none":
         sim.boundary = cfg["boundary"]
+    for p in cfg["particles"]:
+        kw = {k: p[k] for k in ("m", "x", "y", "z", "vx", "vy", "vz", "r") if k in p}
+        if "hash" in p:
+            kw["hash"] = p["hash"]
+        sim.add(**kw)
     ng = cfg.get("nghost")
     if ng:
         sim.N_ghost_x, sim.N_ghost_y, sim.N_ghost_z = ng
@@ -244,15 +245,15 @@ def build(rebound, rb, cfg):
     return sim
 
 
-_vars = {}
-
-
 def remember_var(sim, var):
-    _vars.setdefault(id(sim), []).append(var)
+    # kept on the object itself (an id()-keyed registry would leak between runs when ids are reused)
+    if not hasattr(sim, "_verif_vars"):
+        sim._verif_vars = []
+    sim._verif_vars.append(var)
 
 
 def sim_var_list(sim):
-    return _vars.get(id(sim), [])
+    return getattr(sim, "_verif_vars", [])
 
 
 def attach_callbacks(rebound, rb, sim, cfg):
@@ -264,3 +265,40 @@ def attach_callbacks(rebound, rb, sim, cfg):
         sim.force_is_velocity_dependent = 1
     if cfg.get("collision", "none") != "none" and cfg.get("collision_resolve"):
         sim.collision_resolve = cfg["collision_resolve"]
+
+
+def gen_box_config(rng, nmax=60, allow_shear=True):
+    """particle cloud in a box of root cells: tree gravity / tree collisions / periodic, shear or open boundaries"""
+    nx, ny, nz = rng.choice([(1, 1, 1), (2, 1, 1), (2, 2, 1), (2, 2, 2), (3, 1, 2), (1, 3, 1)])
+    size = rng.choice([1.0, 2.0, 10.0])
+    boundary = rng.choice(["periodic", "open", "shear", "none"] if allow_shear else ["periodic", "open", "none"])
+    integ = "sei" if boundary == "shear" and rng.chance(0.7) else rng.choice(["leapfrog", "leapfrog", "ias15" if boundary in ("none", "open") else "leapfrog", "leapfrog"])
+    gravity = rng.choice(["tree", "none", "basic"]) if integ != "sei" else rng.choice(["none", "tree"])
+    collision = rng.choice(["none", "tree", "direct", "line", "linetree"])
+    if integ == "ias15":
+        # IAS15 keeps per-index arrays; the tree re-orders particles: not a supported combination
+        gravity = "basic"       # without forces IAS15's step size grows without bound and the periodic wrap loop no longer terminates
+        collision = rng.choice(["none", "direct", "line"])
+    n = rng.randint(2, nmax)
+    L = size * min(nx, ny, nz)
+    vmax = rng.choice([0.0, 0.1, 1.0]) * L
+    ps = []
+    for i in range(n):
+        ps.append(dict(m=rng.loguniform(1e-9, 1e-5), x=rng.uniform(-0.49, 0.49) * size * nx, y=rng.uniform(-0.49, 0.49) * size * ny,
+                       z=rng.uniform(-0.49, 0.49) * size * nz, vx=rng.uniform(-vmax, vmax), vy=rng.uniform(-vmax, vmax), vz=rng.uniform(-vmax, vmax),
+                       r=(rng.loguniform(1e-4, 3e-2) * size if collision != "none" else 0.0), hash=1000 + i))
+    cfg = dict(integrator=integ, G=rng.choice([1.0, 0.0]) if gravity == "none" else 1.0, particles=ps, gravity=gravity, collision=collision,
+               boundary=boundary, box=dict(size=size, nx=nx, ny=ny, nz=nz), opts={}, dt=rng.choice([1e-3, 1e-2, 0.05]),
+               rand_seed=rng.randint(1, 2**31 - 1))
+    if collision != "none":
+        cfg["collision_resolve"] = rng.choice(["merge", "hardsphere"])
+        if cfg["collision_resolve"] == "merge" and collision in ("tree", "linetree"):
+            cfg["collision_resolve_keep_sorted"] = 0
+    if boundary in ("periodic", "shear"):
+        cfg["nghost"] = rng.choice([[0, 0, 0], [1, 1, 0], [1, 1, 1], [2, 2, 0]])
+    if integ == "sei":
+        cfg["opts"] = {"ri_sei.OMEGA": 1.0}
+    if gravity == "tree":
+        cfg["opening_angle2"] = rng.choice([0.25, 0.5, 1.0])
+        cfg["softening"] = 1e-3 * size
+    return cfg
